@@ -19,6 +19,12 @@ for sid in ids:
     if r.returncode == 1:
         obs = re.findall(r"^\s+obligation (\S+?)#(\S+?)@", out, re.M)
         lab = "; ".join(sorted(set(f"{u.split('/')[-1]}#{l}" for u, l in obs))[:3])
+        if not lab:
+            mo = re.search(r"^\s+obligation (.*)", out, re.M)
+            lab = mo.group(1)[:150] if mo else ""
+        if "no-failing-input-found" not in out:
+            mo = re.search(r"observed: (.*)", out) or re.search(r'"observed": "([^"]*)"', open(re.search(r"replay=(\S+)", out).group(1)).read() if re.search(r"replay=(\S+)", out) else "")
+            lab = (lab + "; " if lab else "bounded stand-in; ") + "failing input found: " + (mo.group(1)[:110] if mo else "")
         rows.append((sid, pid, "VIOLATION (detected)", lab))
     elif r.returncode == 2:
         m = re.search(r"reason=(.*)", out)
@@ -26,6 +32,16 @@ for sid in ids:
     else:
         rows.append((sid, pid, "OK (missed)", ""))
     print(rows[-1], flush=True)
+if sys.argv[1:] and os.path.exists(ROOT + "/seeded/RESULTS.md"):
+    # partial run: merge into the existing table
+    old = {}
+    for l in open(ROOT + "/seeded/RESULTS.md"):
+        if l.startswith("| C"):
+            c = [x.strip().replace("\\|", "|") for x in l.strip().strip("|").split(" | ")]
+            old[c[0]] = tuple(c + [""] * (4 - len(c)))
+    for r in rows:
+        old[r[0]] = r
+    rows = [old[k] for k in sorted(old)]
 with open(ROOT + "/seeded/RESULTS.md", "w") as f:
     f.write("# Seeded changes vs. the check of the property they break\n\n| seed | property | outcome of `./check <property>` with the patch applied | first failed obligations / reason |\n|---|---|---|---|\n")
     for row in rows:
